@@ -84,6 +84,40 @@ func genParams(g *genCtx, lean string, facts map[string]interface{}) error {
 		walk(fd.Body, nil)
 		return st
 	}
+	// how addRule resolves the body / response_body selectors: against which message's fields, and
+	// with ALL dot-separated components of the selector
+	type selSite struct {
+		found, all bool
+		against    string
+	}
+	selector := func(lhs, field string) selSite {
+		var st selSite
+		if fd := g.funcs["path.addRule"]; fd != nil {
+			ast.Inspect(fd.Body, func(n ast.Node) bool {
+				as, ok := n.(*ast.AssignStmt)
+				if !ok || len(as.Lhs) != 1 || len(as.Rhs) != 1 || exprString(as.Lhs[0]) != lhs {
+					return true
+				}
+				call, ok := as.Rhs[0].(*ast.CallExpr)
+				if !ok || exprString(call.Fun) != "fieldPath" || len(call.Args) < 2 {
+					return true
+				}
+				st.found = true
+				st.against = exprString(call.Args[0])
+				st.all = call.Ellipsis.IsValid() && len(call.Args) == 2 && exprString(call.Args[1]) == "strings.Split(rule."+field+",\".\")"
+				return true
+			})
+		}
+		return st
+	}
+	bodySel, respSel := selector("m.body", "Body"), selector("m.resp", "ResponseBody")
+	if !bodySel.found {
+		g.miss("m.body = fieldPath(...) in path.addRule")
+	}
+	if !respSel.found {
+		g.miss("m.resp = fieldPath(...) in path.addRule")
+	}
+	facts["bodySelector"], facts["respSelector"] = fmt.Sprint(bodySel), fmt.Sprint(respSel)
 	ws, ht := paramsSite("streamWS.RecvMsg"), paramsSite("streamHTTP.RecvMsg")
 	if !ws.found {
 		g.miss("s.params.set(args) in streamWS.RecvMsg")
@@ -98,6 +132,8 @@ func genParams(g *genCtx, lean string, facts map[string]interface{}) error {
 	fmt.Fprintf(&sb, "/-- `serveHTTP` applies the path captures after the query parameters. -/\ndef pathParamsLast : Bool := %v\n\n", pathLast)
 	fmt.Fprintf(&sb, "/-- `streamWS.RecvMsg`: `s.params.set(args)` is not nested in the `if s.method.hasBody` block, and is guarded by a first-message test. -/\ndef wsParamsOutsideBody : Bool := %v\ndef wsParamsFirstOnly : Bool := %v\n\n", ws.outside, ws.first)
 	fmt.Fprintf(&sb, "/-- `streamHTTP.RecvMsg`: likewise. -/\ndef httpParamsOutsideBody : Bool := %v\ndef httpParamsFirstOnly : Bool := %v\n\n", ht.outside, ht.first)
+	fmt.Fprintf(&sb, "/-- `addRule`: the `body` selector is resolved with all its dot-separated components, against the REQUEST message's fields. -/\ndef bodySelectorAll : Bool := %v\ndef bodySelectorOnRequest : Bool := %v\n\n", bodySel.all, bodySel.against == "fieldDescs")
+	fmt.Fprintf(&sb, "/-- `addRule`: the `response_body` selector likewise, against the REPLY message's fields. -/\ndef respSelectorAll : Bool := %v\ndef respSelectorOnReply : Bool := %v\n\n", respSel.all, respSel.against == "desc.Output().Fields()")
 	sb.WriteString("end Larking.Gen\n")
 	return writeIfChanged(filepath.Join(lean, "Larking/Gen/Params.lean"), sb.String())
 }
